@@ -10,11 +10,13 @@ ID = "C01"
 LEAN_MODULES = ["AcnProofs.C01"]
 DRIVER = "drv_C01"
 REQUIRED_THEOREMS = [
-    "Acn.C01.prec_order", "Acn.C01.keyLt_strictWeakOrder", "Acn.C01.init_Inv", "Acn.C01.body_preserves_Inv",
-    "Acn.C01.run_terminates", "Acn.C01.plugged_once", "Acn.C01.unplugged_once", "Acn.C01.history_sorted",
-    "Acn.C01.all_vacant_at_end", "Acn.C01.connected_iff", "Acn.C01.sim_body_core",
+    "Acn.C01.prec_order", "Acn.C01.keyLt_strictWeakOrder", "Acn.C01.cfg0_valid", "Acn.C01.init_Inv",
+    "Acn.C01.body_preserves_Inv", "Acn.C01.processed_in_own_period", "Acn.C01.horizon_spec",
+    "Acn.C01.run_terminates", "Acn.C01.inv_at_period", "Acn.C01.plugged_once", "Acn.C01.unplugged_once",
+    "Acn.C01.history_sorted", "Acn.C01.history_complete", "Acn.C01.ev_history_keys", "Acn.C01.all_vacant_at_end",
+    "Acn.C01.connected_iff", "Acn.C01.sim_body_core", "Acn.C01.sim_run_C01",
 ]
-BUDGET = {"quick": 400, "thorough": 6000, "search": 6000}
+BUDGET = {"quick": 1200, "thorough": 15000, "search": 8000}
 TRUSTED = ["CPython heapq: heappop returns a <-minimal entry and keeps the rest (which one among equal "
            "(timestamp, precedence) keys is left open by the theorems; the correspondence canonicalises ties)",
            "dict insertion order, numpy slicing/zeros/sum as used by simulator.py",
